@@ -7,11 +7,11 @@ ids = [p['id'] for p in props]
 CHECKS = {
  'C01': dict(level='exploration', ref='DESIGN.md §2 C01',
    technique='property-based testing: generated block trees x arrival schedules on real nodes, reference-model oracle (heaviest valid chain, monotone tip, orphan accounting), permutation metamorphism, node-thread panic recorder',
-   text='Random block trees (forks, epoch-boundary difficulty changes, uncles, commits, contextually/structurally invalid blocks) are built by an independent reference model and delivered to fresh real nodes under generated arrival orders (out-of-order, duplicates, sync submit pipeline or async bursts); after every burst a FIFO barrier and the oracle. Exploration is the right level: the quantifier (trees x permutations x interleavings) is unbounded and only sampled; thread interleavings are not owned by the harness.',
+   text='Random block trees (forks, epoch-boundary difficulty changes, uncles, commits, contextually/structurally invalid blocks) are built by an independent reference model and delivered to fresh real nodes under generated arrival orders (out-of-order, duplicates, sync submit pipeline or async bursts); after every burst a FIFO barrier and the oracle; a retention-horizon family (2-block epochs, expired-orphan clean-up forced before every request) checks that orphans within 6 epochs are kept and connected, that older ones may go, and that forgotten blocks are accepted again. Exploration is the right level: the quantifier (trees x permutations x interleavings) is unbounded and only sampled; thread interleavings are not owned by the harness.',
    note='Trusts the reference model (validated by the unchanged node accepting every model-built block) and ckb-types data structures/hashing (C15). Header-level checks for async deliveries are assumed done by the sender as in the real node.'),
  'C02': dict(level='exploration', ref='DESIGN.md §2 C02',
    technique='property-based testing: transaction-dense block trees on real nodes; oracle = full column scans vs reference-model replay of the main chain (both directions), reader-sampled snapshots, and a linear-replay twin node compared byte for byte',
-   text='At every quiescent point of generated reorg histories the node\'s live-cell, cell-data, tx-location, number<->hash and included-uncle columns are scanned completely and compared with the reference model\'s replay of the main chain, together with tip, epoch, per-block epoch/ext records and the chain root; snapshots sampled concurrently by a reader thread get the same comparison; at the end a second node that only ever saw the final main chain must hold byte-identical columns and block exts.',
+   text='At every quiescent point of generated reorg histories the node\'s live-cell, cell-data, tx-location, number<->hash and included-uncle columns are scanned completely and compared with the reference model\'s replay of the main chain, together with tip, epoch, per-block epoch/ext records and the chain root; snapshots sampled concurrently by a reader thread get the same comparison; at the end a second node that only ever saw the final main chain must hold byte-identical columns, block exts and persisted tip / current-epoch records; half of the histories end with a restart whose first snapshot is checked the same way.',
    note='Snapshot instants are sampled, not enumerated. The replay definition is the reference model (validated by the node accepting its blocks).'),
  'C03': dict(level='exploration', ref='DESIGN.md §2 C03',
    technique='property-based testing with a mutation-operator catalogue: boundary-valid candidates and single-rule violations (all other commitments re-sealed by the reference model) through the miner submit pipeline of a real node; verdict oracle + whole-attempt refusal (full state scan unchanged, descendants refused)',
@@ -23,7 +23,7 @@ CHECKS = {
    note='Script outcomes are always_success / always_failure / missing code cell (C05 covers the VM); the cycle-limit boundary is not generated; pool policy rejections (fee rate, duplicates, RBF rules 2-5) are counted, not judged. Two tx-pool defects are known findings.'),
  'C05': dict(level='exploration', ref='DESIGN.md §2 C05',
    technique='metamorphic property-based testing: one-shot script run vs chunked / resumed / signalled runs over generated RV64 programs and repository test binaries, exhaustive split-point sweeps for small programs',
-   text='Programs (repository spawn/exec/load binaries driven by generated data, plus generated C programs compiled to RV64 at check time) are run once with an unlimited budget and then under generated chunk schedules, state resumes, complete() and pause/resume/stop signals and budgets around the exact cost; verdict and cycles must agree. Small programs get every split point (and every pair for tiny ones).',
+   text='Programs (repository spawn/exec/load binaries driven by generated data, plus generated C programs compiled to RV64 at check time) are run once with an unlimited budget and then under generated chunk schedules, state resumes, complete() and pause/resume/stop signals and budgets around the exact cost; verdict and cycles must agree. Small programs get every split point (and every pair for tiny ones); a family loads programmes from non-zero offsets (page provenance after suspend / rebuild).',
    note='Signal timing is real time (tokio); the oracle is timing-independent. Five genuine defects are tolerated as known findings so the search continues behind them.'),
  'C06': dict(level='exploration', ref='DESIGN.md §2 C06',
    technique='property-based testing: the reference model computes every reward and DAO field independently and the real node must accept them; forward fee ledger, conservation invariant, +-1 mutants, exact-arithmetic differential for DAO withdraw',
@@ -55,11 +55,11 @@ CHECKS = {
    note='Pool limits other than the fee rate are never binding (defaults); no uncles; concurrent submission interleavings are sampled. Two genuine defects and three consequences of a C11 root cause are known findings.'),
  'C13': dict(level='exploration', ref='DESIGN.md §2 C13',
    technique='stateful property-based testing on a mine-mode node: templates are sealed and submitted to the same node (must be accepted) and rebuilt bit-for-bit by the reference model from their free fields',
-   text='A generated sequence of pool submissions (chains, diamonds), template requests, mined templates, competing side blocks (uncles, reorgs) and clock advances drives a real node with a block assembler; every template on the current tip is converted the way a miner does and (a) submitted to the node\'s own pipeline, (b) rebuilt by the reference model from its timestamp, uncles, proposals, transactions and cellbase witness: the two blocks must be identical, which pins epoch, target, DAO field, reward amount and lock, chain-root extension and all roots; committed transactions must be committable in the window, parents first, conflict free.',
+   text='A generated sequence of pool submissions (chains, diamonds), template requests, mined templates, competing side blocks (uncles, reorgs) and clock advances drives a real node with a block assembler; every template on the current tip is converted the way a miner does and (a) submitted to the node\'s own pipeline, (b) rebuilt by the reference model from its timestamp, uncles, proposals, transactions and cellbase witness: the two blocks must be identical, which pins epoch, target, DAO field, reward amount and lock, chain-root extension and all roots; committed transactions must be committable in the window, parents first, conflict free; half of the spec variants use tight consensus limits (size, cycles, proposals) so that the limits bind.',
    note='update_interval_millis = 0 (the assembler handles notifications in order); the per-request RPC limits are counted, not judged (the statement speaks of consensus limits). Candidate finding "template older than median time" was analysed and dismissed (with an odd median window at most 18 of 37 timestamps can exceed the tip\'s).'),
  'C14': dict(level='exploration', ref='DESIGN.md §2 C14',
    technique='differential property-based testing: identical operation sequences on a node with warm caches and on a node with every cache disabled, verdicts / block exts / query answers compared with each other and with the reference model',
-   text='Two real nodes receive the same generated sequence of block imports (side branches, invalid blocks that get deleted, reorgs), pool submissions later committed (same tx hash with different witnesses, since/maturity verdicts that differ between pool and commit position, DAO withdrawals) and queries for known, deleted and not-yet-known hashes; one runs with default or tiny caches, the reference with cache capacity 0 (store caches and the tx-verification cache). Every verdict, BlockExt (fees, cycles, sizes), reported cycles/fee and query answer must be identical, and equal to the model where the model knows it.',
+   text='Two real nodes receive the same generated sequence of block imports (side branches, invalid blocks that get deleted, reorgs), pool submissions later committed (same tx hash with different witnesses, since/maturity verdicts that differ between pool and commit position, DAO withdrawals) and queries for known, deleted and not-yet-known hashes; one runs with default or tiny caches, the reference with cache capacity 0 (store caches and the tx-verification cache). Every verdict, BlockExt (fees, cycles, sizes), reported cycles/fee and query answer must be identical, and equal to the model where the model knows it. A second family imports the first k blocks inside an assume-valid window (scripts skipped) on both nodes and the rest in full: verdicts and recorded cycles must still agree.',
    note='Operations are sequential with quiescence in between (cache effects needing two blocks in flight are C01\'s). The VM-version-change reuse of cached script results (only reachable on specs that schedule the ckb2023 fork in the future) is a known finding.'),
  'C15': dict(level='exploration', ref='DESIGN.md §2 C15',
    technique='schema-driven property-based testing: independent molecule interpreter (generator + strict/compatible verifier) vs generated code, JSON round trips, hash-commitment mutation relations',
@@ -67,8 +67,8 @@ CHECKS = {
    note='blake2b and the merkle definition are recomputed in the harness; value sizes are bounded (tens of kB).'),
  'C16': dict(level='exploration', ref='DESIGN.md §2 C16',
    technique='fuzzing (libFuzzer in the thorough tier) and structure-aware property-based testing of frame/message decoding with panic and bound oracles; model-based testing of compact-block reconstruction on a real node',
-   text='Random bytes and structure-aware mutations of valid protocol messages go through decompression, decoding, every accessor/conversion/hash and the context-free verifiers under catch_unwind with size-bound checks; compact-block reconstruction is driven on a real node with generated pools, prefilled sets, twins and replies and compared with a model (exact block, exact missing report, or collision/error).',
-   note='The relay handlers are mirrored call by call (no CKBProtocolContext mock). The quick tier is proptest only; the libFuzzer campaign needs a nightly cold build and runs in the thorough tier.'),
+   text='Random bytes and structure-aware mutations of valid protocol messages go through decompression, decoding, every accessor/conversion/hash and the context-free verifiers under catch_unwind with size-bound checks; compact-block reconstruction is driven on a real node with generated pools, prefilled sets, twins and replies and compared with a model (exact block, exact missing report, or collision/error); whole relay sessions of model-built valid blocks run through the real protocol handler end to end (the committed block must arrive byte for byte, honest peers are never banned, liars never poison the block).',
+   note='The relay-session sub-check drives the real Relayer through CKBProtocolHandler::received with a recording CKBProtocolContext (honest and lying peers, availability changes between rounds); the older reconstruction sub-check mirrors the handlers call by call. The quick tier is proptest only; the libFuzzer campaign needs a nightly cold build and runs in the thorough tier. One relay defect is a known finding.'),
  'C17': dict(level='exploration', ref='DESIGN.md §2 C17',
    technique='model-based property testing with bounded-exhaustive operation sequences (orphan pool, in-flight table, header map) and random sequences beyond; skip-list ancestors vs naive parent walk',
    text='Each structure is driven by generated and exhaustively enumerated short operation sequences against a simple mathematical model (set of (hash,parent), per-peer map, HashMap, parent-pointer walk), compared after every operation; locator/ancestor queries also on a real node.',
